@@ -697,7 +697,7 @@ Lemma start_ncp_spec : forall ow c st p addr op last dns orc,
 Proof.
   intros ow c st p addr op last dns orc. unfold start_ncp.
   set (addr1 := match addr with None => or_alloc orc | Some a =>
-                  match ow with PPPoE => if or_reserve_ok orc then Some a else None | LNS => Some a end end).
+                  match ow with PPPoE => if or_reserve_ok orc then Some a else None | _ => Some a end end).
   cbn [f_always repaired]. rewrite orb_false_r.
   destruct (usable addr1) eqn:Hu; [left|right; simpl; auto].
   destruct (usable_spec _ Hu) as (v & Hv & Hl & Hz).
@@ -755,36 +755,37 @@ Lemma sess_down_ok : forall s,
   (sess_inv s -> sess_inv (fst (sess_down repaired s)) /\
                  (s_addr s <> None -> s_addr (fst (sess_down repaired s)) <> None)).
 Proof.
-  intros s. unfold sess_down. destruct (s_owner s); [|split; auto].
+  intros s. unfold sess_down. destruct (s_owner s); try (split; auto; fail).
+  destruct (sess_fsm_only repaired s (s_cfg s) (down_event (s_fsm s))) as [s' a] eqn:E.
   split.
-  - intros (H1 & H2 & H3). unfold sess_idle, sess_fsm_only. rewrite H1, H2, H3. simpl. auto.
-  - intros H. apply sess_fsm_only_inv; auto.
+  - intros (H1 & H2 & H3). revert E. unfold sess_fsm_only. rewrite H1, H2, H3. simpl.
+    intros E; inversion E; subst. unfold sess_idle. simpl. auto.
+  - intros H. pose proof (sess_fsm_only_inv s (s_cfg s) (down_event (s_fsm s)) H eq_refl) as [A B].
+    rewrite E in A, B. simpl in *. split; [|exact B].
+    destruct A as (v & Hv & Hl & Hz & Ha & Hp). exists v. simpl. auto.
 Qed.
 
-Lemma sess_reauth_ok : forall s aaa orc, sess_ok s -> sess_ok (fst (sess_step repaired s (EvReauth aaa orc))).
+Lemma sess_reauth_ok : forall s aaa orc, sess_ok s -> sess_ok (fst (sess_step_live repaired s (EvReauth aaa orc))).
 Proof.
-  intros s aaa orc H. cbn [sess_step].
-  destruct (sess_down repaired s) as [s1 a1] eqn:D.
-  assert (H1 : sess_ok s1).
-  { pose proof (sess_down_ok s) as [A B]. rewrite D in A, B. simpl in A, B.
-    destruct H as [H|H]; [left; auto|right; apply B; auto]. }
-  set (addr := match extract_ip repaired aaa with Some x => Some x | None => s_addr s1 end).
-  pose proof (start_ncp_spec (s_owner s1) (s_cfg s1) (s_fsm s1) (s_peer s1) addr (s_open s1) (s_lastreq s1) (s_dns s1) orc) as SP.
-  destruct (start_ncp repaired (s_owner s1) (s_cfg s1) (s_fsm s1) (s_peer s1) addr (s_open s1) (s_lastreq s1) (s_dns s1) orc)
-    as [s2 a2]. simpl in *.
-  destruct SP as [(v & Hv & Hl & Hz & Ha & Hp)|(E1 & E2 & E3 & E4 & E5)].
+  intros s aaa orc H. cbn [sess_step_live].
+  assert (HD : sess_ok (fst (sess_down repaired s))).
+  { pose proof (sess_down_ok s) as [A B]. destruct H as [H|H]; [left; auto|right; apply B; auto]. }
+  destruct (s_owner s) eqn:Eo; try exact HD.
+  set (addr := match extract_ip repaired aaa with Some x => Some x | None => s_addr s end).
+  destruct (start_ncp_spec LNS (s_cfg s) (s_fsm s) (s_peer s) addr (s_open s) (s_lastreq s) (s_dns s) orc)
+    as [(v & Hv & Hl & Hz & Ha & Hp)|(E1 & E2 & E3 & E4 & E5)].
   - right. exists v. repeat split; auto.
-  - destruct H1 as [(I1 & I2 & I3)|(v & Hv & Hl & Hz & Ha & Hp)].
+  - destruct H as [(I1 & I2 & I3)|(v & Hv & Hl & Hz & Ha & Hp)].
     + left. unfold sess_idle. rewrite E2, E4, E5. auto.
     + right. exists v. rewrite E1, E3, E4. repeat split; auto.
 Qed.
 
 Lemma sess_step_inv : forall s e, is_reauth_b e = false -> sess_inv s ->
-  sess_inv (fst (sess_step repaired s e)) /\
-  (s_addr s <> None -> s_addr (fst (sess_step repaired s e)) <> None).
+  sess_inv (fst (sess_step_live repaired s e)) /\
+  (s_addr s <> None -> s_addr (fst (sess_step_live repaired s e)) <> None).
 Proof.
   intros s e Hre Hinv. destruct e as [id wire| |w|w|w| |tid| | |aaa orc]; [| | | | | | | | |discriminate];
-    cbn [sess_step];
+    cbn [sess_step_live];
     try (apply sess_fsm_only_inv; [exact Hinv|]; try reflexivity; apply ipcp_learn_assigned);
     try (split; [exact Hinv|auto]);
     try (apply (proj2 (sess_down_ok s)); exact Hinv).
@@ -811,26 +812,35 @@ Qed.
 
 (* a session whose IPCP was never started stays silent and closed whatever the subscriber sends *)
 Lemma sess_step_idle : forall fl s e, is_reauth_b e = false -> sess_idle s ->
-  sess_idle (fst (sess_step fl s e)) /\ snd (sess_step fl s e) = [].
+  sess_idle (fst (sess_step_live fl s e)) /\ snd (sess_step_live fl s e) = [].
 Proof.
   intros fl s e Hre (H1 & H2 & H3). unfold sess_idle.
-  destruct e as [id wire| |w|w|w| |tid| | |aaa orc]; [| | | | | | | | |discriminate]; cbn [sess_step];
+  destruct e as [id wire| |w|w|w| |tid| | |aaa orc]; [| | | | | | | | |discriminate]; cbn [sess_step_live];
     unfold sess_down, sess_fsm_only; rewrite ?H1, ?H2, ?H3; try (simpl; auto; fail);
     try (destruct (s_owner s); simpl; rewrite ?H1, ?H2, ?H3; simpl; auto; fail).
   unfold ipcp_input. destruct (parse_wire wire); simpl; auto.
   destruct (ipcp_req (s_cfg s) (s_peer s) a) as [r p']. simpl. auto.
 Qed.
 
-Lemma sess_step_ok : forall s e, sess_ok s -> sess_ok (fst (sess_step repaired s e)).
+Lemma sess_step_ok : forall s e, sess_ok s -> sess_ok (fst (sess_step_live repaired s e)).
 Proof.
   intros s e H. destruct (is_reauth_b e) eqn:Hre.
   - destruct e; try discriminate. apply sess_reauth_ok. exact H.
   - destruct H as [H|H]; [left; apply sess_step_idle; auto|right; apply sess_step_inv; auto].
 Qed.
 
+Lemma sess_step_okE : forall s e, sess_ok s -> sess_ok (fst (sess_step repaired s e)).
+Proof. intros s e H. unfold sess_step. destruct (is_ended s); [exact H|apply sess_step_ok; exact H]. Qed.
+
+Lemma sess_step_idleE : forall fl s e, is_reauth_b e = false -> sess_idle s ->
+  sess_idle (fst (sess_step fl s e)) /\ snd (sess_step fl s e) = [].
+Proof.
+  intros fl s e He H. unfold sess_step. destruct (is_ended s); [split; [exact H|reflexivity]|apply sess_step_idle; auto].
+Qed.
+
 Lemma sess_run_ok : forall es s, sess_ok s -> sess_ok (sess_run repaired s es).
 Proof.
-  induction es as [|e es IH]; intros s H; simpl; auto. apply IH. apply sess_step_ok. exact H.
+  induction es as [|e es IH]; intros s H; simpl; auto. apply IH. apply sess_step_okE. exact H.
 Qed.
 
 (* without a reservation conflict the session address of a started session is never nil *)
@@ -838,21 +848,21 @@ Definition no_conflict (e : sev) : bool :=
   match e with EvReauth _ orc => or_reserve_ok orc | _ => true end.
 Definition sess_ok2 (s : sess) : Prop := sess_idle s \/ (sess_inv s /\ s_addr s <> None).
 
-Lemma sess_step_ok2 : forall s e, no_conflict e = true -> sess_ok2 s -> sess_ok2 (fst (sess_step repaired s e)).
+Lemma sess_step_ok2 : forall s e, no_conflict e = true -> sess_ok2 s -> sess_ok2 (fst (sess_step_live repaired s e)).
 Proof.
   intros s e Hnc H. destruct (is_reauth_b e) eqn:Hre.
-  - destruct e as [? ?| |?|?|?| |?| | |aaa orc]; try discriminate. simpl in Hnc. cbn [sess_step].
-    destruct (sess_down repaired s) as [s1 a1] eqn:D.
-    assert (H1 : sess_ok2 s1).
-    { pose proof (sess_down_ok s) as [A B]. rewrite D in A, B. simpl in A, B.
+  - destruct e as [? ?| |?|?|?| |?| | |aaa orc]; try discriminate. simpl in Hnc. cbn [sess_step_live].
+    assert (HD : sess_ok2 (fst (sess_down repaired s))).
+    { pose proof (sess_down_ok s) as [A B].
       destruct H as [H|[H Hne]]; [left; auto|right; destruct (B H); auto]. }
-    set (addr := match extract_ip repaired aaa with Some x => Some x | None => s_addr s1 end).
-    pose proof (start_ncp_spec (s_owner s1) (s_cfg s1) (s_fsm s1) (s_peer s1) addr (s_open s1) (s_lastreq s1) (s_dns s1) orc) as SP.
-    destruct (start_ncp repaired (s_owner s1) (s_cfg s1) (s_fsm s1) (s_peer s1) addr (s_open s1) (s_lastreq s1) (s_dns s1) orc)
+    destruct (s_owner s) eqn:Eo; try exact HD.
+    set (addr := match extract_ip repaired aaa with Some x => Some x | None => s_addr s end).
+    pose proof (start_ncp_spec LNS (s_cfg s) (s_fsm s) (s_peer s) addr (s_open s) (s_lastreq s) (s_dns s) orc) as SP.
+    destruct (start_ncp repaired LNS (s_cfg s) (s_fsm s) (s_peer s) addr (s_open s) (s_lastreq s) (s_dns s) orc)
       as [s2 a2] eqn:SN. simpl in *.
     destruct SP as [(v & Hv & Hl & Hz & (a & Ha & Hto) & Hp)|(E1 & E2 & E3 & E4 & E5)].
     + right. split; [exists v; repeat split; auto; right; exists a; auto|rewrite Ha; discriminate].
-    + destruct H1 as [(I1 & I2 & I3)|(Hinv & Hne)].
+    + destruct H as [(I1 & I2 & I3)|(Hinv & Hne)].
       * left. unfold sess_idle. rewrite E2, E4, E5. auto.
       * exfalso. destruct Hinv as (v & Hv & Hl & Hz & Ha & Hp).
         destruct Ha as [Ha|(a0 & Ha0 & Hto0)]; [contradiction|].
@@ -861,17 +871,20 @@ Proof.
           rewrite Ha0. simpl. rewrite Hto0, Hz. reflexivity. }
         destruct addr as [x|] eqn:Ea; [|discriminate].
         revert SN. unfold start_ncp. cbn [f_always repaired]. rewrite orb_false_r.
-        destruct (s_owner s1); rewrite ?Hnc, Hu; unfold ipcp_set_peer; destruct (up_open (s_fsm s1));
+        rewrite Hu; unfold ipcp_set_peer; destruct (up_open (s_fsm s));
           intros SN; inversion SN; subst; simpl in E4; discriminate.
   - assert (Hre' : is_reauth_b e = false) by exact Hre.
     destruct H as [H|(H & Hne)]; [left; apply sess_step_idle; auto|right].
     destruct (sess_step_inv s e Hre' H) as [A B]. split; auto.
 Qed.
 
+Lemma sess_step_ok2E : forall s e, no_conflict e = true -> sess_ok2 s -> sess_ok2 (fst (sess_step repaired s e)).
+Proof. intros s e Hn H. unfold sess_step. destruct (is_ended s); [exact H|apply sess_step_ok2; auto]. Qed.
+
 Lemma sess_run_ok2 : forall es s, forallb no_conflict es = true -> sess_ok2 s -> sess_ok2 (sess_run repaired s es).
 Proof.
   induction es as [|e es IH]; intros s Hnc H; simpl in *; auto.
-  apply andb_true_iff in Hnc. destruct Hnc as [H1 H2]. apply IH; auto. apply sess_step_ok2; auto.
+  apply andb_true_iff in Hnc. destruct Hnc as [H1 H2]. apply IH; auto. apply sess_step_ok2E; auto.
 Qed.
 
 Lemma sess_start_ok2 : forall ow aaa d orc, sess_ok2 (sess_start_dns repaired ow aaa d orc).
@@ -887,25 +900,31 @@ Definition is_reauth (e : sev) : bool := is_reauth_b e.
 
 (* no packet of the subscriber changes the assigned address (any variant); only a new AAA answer does *)
 Lemma sess_step_assigned : forall fl s e, is_reauth e = false ->
-  ic_assigned (s_cfg (fst (sess_step fl s e))) = ic_assigned (s_cfg s).
+  ic_assigned (s_cfg (fst (sess_step_live fl s e))) = ic_assigned (s_cfg s).
 Proof.
   intros fl s e He.
   assert (F : forall c' r, ic_assigned c' = ic_assigned (s_cfg s) ->
               ic_assigned (s_cfg (fst (sess_fsm_only fl s c' r))) = ic_assigned (s_cfg s)).
   { intros c' [a st'] Hc. unfold sess_fsm_only. destruct (fold_left _ _ _). simpl. exact Hc. }
-  destruct e as [id wire| |w|w|w| |tid| | |aaa orc]; [| | | | | | | | |discriminate]; cbn [sess_step];
+  destruct e as [id wire| |w|w|w| |tid| | |aaa orc]; [| | | | | | | | |discriminate]; cbn [sess_step_live];
     try (apply F; try reflexivity; apply ipcp_learn_assigned); try reflexivity;
-    try (unfold sess_down; destruct (s_owner s); [apply F|]; reflexivity).
+    try (unfold sess_down; destruct (s_owner s); try reflexivity;
+         pose proof (F (s_cfg s) (down_event (s_fsm s)) eq_refl) as X;
+         destruct (sess_fsm_only fl s (s_cfg s) (down_event (s_fsm s))); simpl in *; exact X).
   unfold ipcp_input. destruct (parse_wire wire); simpl; auto.
   destruct (ipcp_req _ _ _). destruct (rcr_event _ _ _). destruct (fold_left _ _ _). reflexivity.
 Qed.
+
+Lemma sess_step_assignedE : forall fl s e, is_reauth e = false ->
+  ic_assigned (s_cfg (fst (sess_step fl s e))) = ic_assigned (s_cfg s).
+Proof. intros fl s e H. unfold sess_step. destruct (is_ended s); [reflexivity|apply sess_step_assigned; exact H]. Qed.
 
 Lemma sess_run_assigned : forall fl es s, forallb (fun e => negb (is_reauth e)) es = true ->
   ic_assigned (s_cfg (sess_run fl s es)) = ic_assigned (s_cfg s).
 Proof.
   intros fl es. induction es as [|e es IH]; intros s H; simpl in *; auto.
   apply andb_true_iff in H. destruct H as [H1 H2]. rewrite IH by exact H2.
-  apply sess_step_assigned. destruct (is_reauth e); [discriminate|reflexivity].
+  apply sess_step_assignedE. destruct (is_reauth e); [discriminate|reflexivity].
 Qed.
 
 (* at every point of every history, for both owners: either IPCP was never started (no address, closed), or
@@ -945,7 +964,7 @@ Qed.
 Definition addr_after_registry (ow : owner) (addr : option bytes) (orc : oracle) : option bytes :=
   match addr with
   | None => or_alloc orc
-  | Some a => match ow with PPPoE => if or_reserve_ok orc then Some a else None | LNS => Some a end
+  | Some a => match ow with PPPoE => if or_reserve_ok orc then Some a else None | _ => Some a end
   end.
 
 Lemma startncp_assigned : forall ow aaa d orc,
@@ -1526,8 +1545,9 @@ Proof. intros fl s c [a st]. unfold sess_fsm_only. destruct (fold_left _ _ _). r
 
 Lemma sess_down_no_sca : forall fl s, no_sca (snd (sess_down fl s)).
 Proof.
-  intros fl s. unfold sess_down. destruct (s_owner s); [|intros id os []].
-  rewrite sess_fsm_only_acts. apply no_sca_down.
+  intros fl s. unfold sess_down. destruct (s_owner s); try (intros id os []).
+  pose proof (sess_fsm_only_acts fl s (s_cfg s) (down_event (s_fsm s))) as X.
+  destruct (sess_fsm_only fl s (s_cfg s) (down_event (s_fsm s))) as [s' a]. simpl in *. rewrite X. apply no_sca_down.
 Qed.
 
 Lemma start_ncp_no_sca : forall fl ow c st p addr op last dns orc,
@@ -1540,19 +1560,19 @@ Qed.
 
 (* every Configure-Ack a session ever emits carries nothing but the assignment in force *)
 Lemma sess_step_acks_only_assigned : forall s e id os,
-  sess_ok s -> In (Sca id os) (snd (sess_step repaired s e)) ->
+  sess_ok s -> In (Sca id os) (snd (sess_step_live repaired s e)) ->
   exists v, ic_assigned (s_cfg s) = Some v /\ usable (ic_assigned (s_cfg s)) = true /\
             (forall o, In o os -> o_type o = 3%N -> o_data o = v) /\
             (forall o, In o os -> length (o_data o) = 4%nat /\
                                   (o_type o = 3%N \/ o_type o = 129%N \/ o_type o = 131%N)).
 Proof.
   intros s e id os Hok Hin.
-  destruct e as [rid wire| |w|w|w| |tid| | |aaa orc]; cbn [sess_step] in Hin;
+  destruct e as [rid wire| |w|w|w| |tid| | |aaa orc]; cbn [sess_step_live] in Hin;
     try (rewrite sess_fsm_only_acts in Hin; exfalso;
          first [eapply no_sca_rca; exact Hin | eapply no_sca_rcn; exact Hin | eapply no_sca_rtr; exact Hin]).
   - destruct Hok as [Hidle|Hinv].
     + destruct (sess_step_idle repaired s (EvReq rid wire) eq_refl Hidle) as [_ E].
-      cbn [sess_step] in E. rewrite E in Hin. contradiction.
+      cbn [sess_step_live] in E. rewrite E in Hin. contradiction.
     + pose proof (usable_assigned_of_inv s Hinv) as Hu.
       destruct Hinv as (v & Hv & Hl & Hz & _).
       assert (Hto : to4o (ic_assigned (s_cfg s)) = Some v) by (rewrite Hv; simpl; apply to4_of_len4; auto).
@@ -1563,15 +1583,8 @@ Proof.
   - simpl in Hin. contradiction.
   - rewrite sess_fsm_only_acts in Hin. exfalso. destruct (N.eqb (s_fsm s) 5); simpl in Hin; contradiction.
   - exfalso. eapply sess_down_no_sca; exact Hin.
-  - exfalso. destruct (sess_down repaired s) as [s1 a1] eqn:D.
-    destruct (start_ncp repaired (s_owner s1) (s_cfg s1) (s_fsm s1) (s_peer s1) _ (s_open s1) (s_lastreq s1) (s_dns s1) orc)
-      as [s2 a2] eqn:SN.
-    simpl in Hin. apply in_app_or in Hin. destruct Hin as [Hin|Hin].
-    + pose proof (sess_down_no_sca repaired s) as H. rewrite D in H. eapply H; exact Hin.
-    + pose proof (start_ncp_no_sca repaired (s_owner s1) (s_cfg s1) (s_fsm s1) (s_peer s1)
-                    (match extract_ip repaired aaa with Some x => Some x | None => s_addr s1 end)
-                    (s_open s1) (s_lastreq s1) (s_dns s1) orc) as H.
-      rewrite SN in H. eapply H; exact Hin.
+  - exfalso. destruct (s_owner s); try (eapply sess_down_no_sca; exact Hin).
+    eapply start_ncp_no_sca; exact Hin.
 Qed.
 
 Lemma session_acks_only_assigned : forall s0 es e id os,
@@ -1582,7 +1595,10 @@ Lemma session_acks_only_assigned : forall s0 es e id os,
             (forall o, In o os -> o_type o = 3%N -> o_data o = v) /\
             (forall o, In o os -> length (o_data o) = 4%nat /\
                                   (o_type o = 3%N \/ o_type o = 129%N \/ o_type o = 131%N)).
-Proof. intros s0 es e id os H0 s. apply sess_step_acks_only_assigned. apply sess_run_ok. exact H0. Qed.
+Proof.
+  intros s0 es e id os H0 s Hin. unfold sess_step in Hin. destruct (is_ended s); [contradiction|].
+  eapply sess_step_acks_only_assigned; [apply sess_run_ok; exact H0|exact Hin].
+Qed.
 
 (* ------------------------------------------------------------------ open sessions have the assigned address *)
 Definition tr_ok (st : N) (r : list act * N) : Prop :=
@@ -1654,29 +1670,16 @@ Qed.
 
 Lemma sess_down_fsm_ok : forall s, fsm_ok s -> fsm_ok (fst (sess_down repaired s)).
 Proof.
-  intros s H. unfold sess_down. destruct (s_owner s); [|exact H].
-  apply sess_fsm_only_fsm_ok; auto. apply tr_down.
+  intros s H. unfold sess_down. destruct (s_owner s); try exact H.
+  pose proof (sess_fsm_only_fsm_ok s (s_cfg s) (down_event (s_fsm s)) H (tr_down (s_fsm s))) as X.
+  destruct (sess_fsm_only repaired s (s_cfg s) (down_event (s_fsm s))) as [s' a]. simpl in *.
+  destruct X as (X1 & X2 & X3). unfold fsm_ok. simpl. auto.
 Qed.
 
-Lemma sess_down_pppoe_state : forall s, s_owner s = PPPoE -> (s_fsm s <= 9)%N ->
-  (s_fsm (fst (sess_down repaired s)) = 0%N \/ s_fsm (fst (sess_down repaired s)) = 1%N) /\
-  s_owner (fst (sess_down repaired s)) = PPPoE.
-Proof.
-  intros s Ho Hle. unfold sess_down. rewrite Ho. unfold sess_fsm_only.
-  destruct (down_event (s_fsm s)) as [a st'] eqn:E. destruct (fold_left _ _ _). simpl.
-  split; [|exact Ho]. revert E Hle. unfold down_event. split_matches; intros E Hle; inversion E; subst; auto; lia.
-Qed.
-
-Lemma sess_down_owner : forall fl s, s_owner (fst (sess_down fl s)) = s_owner s.
-Proof.
-  intros fl s. unfold sess_down. destruct (s_owner s) eqn:E; [|exact E].
-  unfold sess_fsm_only. destruct (down_event (s_fsm s)). destruct (fold_left _ _ _). exact E.
-Qed.
-
-Lemma sess_step_fsm_ok : forall s e, sess_ok s -> fsm_ok s -> fsm_ok (fst (sess_step repaired s e)).
+Lemma sess_step_fsm_ok : forall s e, sess_ok s -> fsm_ok s -> fsm_ok (fst (sess_step_live repaired s e)).
 Proof.
   intros s e Hok Hf.
-  destruct e as [rid wire| |w|w|w| |tid| | |aaa orc]; cbn [sess_step];
+  destruct e as [rid wire| |w|w|w| |tid| | |aaa orc]; cbn [sess_step_live];
     try (apply sess_fsm_only_fsm_ok; [exact Hf|]; first [apply tr_rca|apply tr_rcn|apply tr_rtr|apply tr_timeout]).
   - (* EvReq *)
     destruct Hf as (F1 & F2 & F3). unfold ipcp_input.
@@ -1693,41 +1696,32 @@ Proof.
   - exact Hf.
   - apply sess_down_fsm_ok. exact Hf.
   - (* EvReauth *)
-    destruct (sess_down repaired s) as [s1 a1] eqn:D.
-    assert (Hf1 : fsm_ok s1) by (pose proof (sess_down_fsm_ok s Hf) as X; rewrite D in X; exact X).
-    assert (Hok1 : sess_ok s1).
-    { pose proof (sess_down_ok s) as [A B]. rewrite D in A, B. simpl in A, B.
-      destruct Hok as [H|H]; [left; auto|right; apply B; auto]. }
-    assert (Hown : s_owner s1 = s_owner s) by (pose proof (sess_down_owner repaired s) as X; rewrite D in X; exact X).
-    assert (Hst1 : s_owner s = PPPoE -> s_fsm s1 = 0%N \/ s_fsm s1 = 1%N).
-    { intros Ho. pose proof (sess_down_pppoe_state s Ho (proj1 Hf)) as [X _]. rewrite D in X. exact X. }
-    set (addr := match extract_ip repaired aaa with Some x => Some x | None => s_addr s1 end).
-    destruct Hf1 as (F1 & F2 & F3).
+    destruct (s_owner s) eqn:Eo; try (apply sess_down_fsm_ok; exact Hf).
+    set (addr := match extract_ip repaired aaa with Some x => Some x | None => s_addr s end).
+    destruct Hf as (F1 & F2 & F3).
     unfold start_ncp. cbn [f_always repaired]. rewrite orb_false_r.
-    set (addr1 := match addr with None => or_alloc orc | Some a =>
-                    match s_owner s1 with PPPoE => if or_reserve_ok orc then Some a else None | LNS => Some a end end).
+    set (addr1 := match addr with None => or_alloc orc | Some a => Some a end).
     destruct (usable addr1) eqn:Hu.
-    + destruct (match s_owner s1, addr1 with LNS, None => _ | _, _ => _ end) as [c1 p1].
-      destruct (up_open_props (s_fsm s1) F1) as [U1 U2].
-      destruct (up_open (s_fsm s1)) as [a st'] eqn:E. simpl in *.
+    + destruct (match addr1 with None => _ | _ => _ end) as [c1 p1].
+      destruct (up_open_props (s_fsm s) F1) as [U1 U2].
+      destruct (up_open (s_fsm s)) as [a st'] eqn:E. simpl in *.
       unfold fsm_ok. simpl. split; [exact U1|]. split; [intros Hop; eapply U2; eauto|].
       intros Hn. rewrite Hn in Hu. discriminate.
     + simpl. unfold fsm_ok. simpl. split; [exact F1|]. split; [exact F2|]. intros _.
-      destruct (s_owner s1) eqn:Eo.
-      * apply Hst1. symmetry. exact Hown.
-      * (* LNS: an unusable address after the registry step means there was none before *)
-        apply F3. destruct Hok1 as [(I1 & I2 & I3)|(v & Hv & Hl & Hz & Ha & Hp)]; [exact I2|].
-        destruct Ha as [Ha|(a0 & Ha0 & Hto0)]; [exact Ha|]. exfalso.
-        assert (Hua : usable addr = true).
-        { unfold addr. destruct (extract_ip repaired aaa) eqn:E; [eapply extract_repaired_usable; eauto|].
-          rewrite Ha0. simpl. rewrite Hto0, Hz. reflexivity. }
-        unfold addr1 in Hu. destruct addr as [x|]; [|discriminate]. rewrite Hua in Hu. discriminate.
+      (* LNS: an unusable address after the registry step means there was none before *)
+      apply F3. destruct Hok as [(I1 & I2 & I3)|(v & Hv & Hl & Hz & Ha & Hp)]; [exact I2|].
+      destruct Ha as [Ha|(a0 & Ha0 & Hto0)]; [exact Ha|]. exfalso.
+      assert (Hua : usable addr = true).
+      { unfold addr. destruct (extract_ip repaired aaa) eqn:E; [eapply extract_repaired_usable; eauto|].
+        rewrite Ha0. simpl. rewrite Hto0, Hz. reflexivity. }
+      unfold addr1 in Hu. destruct addr as [x|]; [|discriminate]. rewrite Hua in Hu. discriminate.
 Qed.
 
 Lemma sess_run_fsm_ok : forall es s, sess_ok s -> fsm_ok s -> fsm_ok (sess_run repaired s es).
 Proof.
   induction es as [|e es IH]; intros s H1 H2; simpl; auto.
-  apply IH; [apply sess_step_ok; exact H1|apply sess_step_fsm_ok; auto].
+  apply IH; [apply sess_step_okE; exact H1|].
+  unfold sess_step. destruct (is_ended s); [exact H2|apply sess_step_fsm_ok; auto].
 Qed.
 
 Lemma sess_start_fsm_ok : forall ow aaa d orc, fsm_ok (sess_start_dns repaired ow aaa d orc).
